@@ -119,7 +119,7 @@ pub fn main(ctx: &Ctx, repo_bin_dir: Option<String>) -> i32 {
                     break;
                 }
             }
-            if i % 97 == 0 {
+            if i % 97 == 0 || ctx.want_sample() {
                 ctx.sample(json!({"definition": text, "widths": "0..200, 1000, 65535, usize::MAX"}));
             }
             i += nw;
